@@ -443,6 +443,9 @@ func (v *Verifier) callMods(c *ssa.CallCommon, maps map[string]string) bool {
 func (v *Verifier) ghostSort(g *GhostVar) string {
 	se := &SpecEnv{e: v.env, pkg: g.Pkg, qn: &v.qn}
 	srt := v.env.sr.sortOf(se.resolveType(g.T))
+	if g.Key2 != nil {
+		return arr("Int", arr("Int", srt))
+	}
 	if g.Key != nil {
 		return arr("Int", srt)
 	}
